@@ -6,19 +6,21 @@
   id produces, apart from a constant offset of the sequence counters.
 -/
 import AsamCmp.EncHist
+import AsamCmp.Lemmas.EncHist
 namespace AsamCmp
 
 /-- core: `encode` reads only (dev, stream, seqc) of the encoder it is called on -/
 theorem C10_encode_any_state (e : Enc) (batch : List Packet) (c : Ctx) :
     (e.encode batch c).2 = shiftSeq e.seqc ((Enc.fresh e.dev e.stream).encode batch c).2 := by
-  sorry
+  exact encode_shift e batch c
 
 /-- C10: after any history, the frames of the next call are those of a fresh encoder with the
     same ids, shifted by the counter -/
 theorem C10_history_independent (ops : List EncOp) (batch : List Packet) (c : Ctx) :
     let e := ((Enc.fresh 0 0).runOps ops).1
     (e.encode batch c).2 = shiftSeq e.seqc ((Enc.fresh e.dev e.stream).encode batch c).2 := by
-  sorry
+  intro e
+  exact C10_encode_any_state e batch c
 
 /-- in particular a payload that needs segmentation is segmented on every call: the number of
     frames and all message flags coincide with those of the fresh encoder -/
@@ -26,6 +28,8 @@ theorem C10_same_shape (ops : List EncOp) (batch : List Packet) (c : Ctx) :
     let e := ((Enc.fresh 0 0).runOps ops).1
     ((e.encode batch c).2.map fun f => f.msgs.map fun m => (m.idx, m.seg, m.body)) =
     (((Enc.fresh e.dev e.stream).encode batch c).2.map fun f => f.msgs.map fun m => (m.idx, m.seg, m.body)) := by
-  sorry
+  intro e
+  rw [C10_encode_any_state e batch c, shiftSeq, List.map_map]
+  rfl
 
 end AsamCmp
